@@ -235,7 +235,7 @@ func runC16(c *Ctx) {
 					if quo, ok := mul.X.(*ssa.BinOp); ok && quo.Op == token.QUO {
 						k1, _ := constInt(mul.Y)
 						k2, _ := constInt(quo.Y)
-						if cc, ok := quo.X.(*ssa.Call); ok && calleeName(cc) == "(*proxy/lib.tokens_t).count" && k1 == 8 && k2 == 8 {
+						if cc, ok := quo.X.(*ssa.Call); ok && strings.HasSuffix(calleeName(cc), "proxy/lib.tokens_t).count") && k1 == 8 && k2 == 8 {
 							shape = true
 							cnt = cc
 						}
